@@ -6,6 +6,7 @@ import (
 	"go/token"
 	"go/types"
 	"strings"
+	"verifcheck/internal/core"
 
 	"golang.org/x/tools/go/ssa"
 
@@ -15,9 +16,9 @@ import (
 
 func init() {
 	Register(&Spec{
-		ID: "C06",
+		ID:          "C06",
 		Explanation: "Decides the structural skeleton of exactly-once, arrival-order RPC delivery: (R1) the seven message handlers are called only from Conn.receive, receive only from the goroutine NewConn starts, and the calls that deliver to the application (RecvCall, PipelineRecv) are direct calls in handleCall, not behind go/defer/closures; (R2) on every path of handleCall/handleBootstrap from the insertion of the answer to a nil return exactly one of sendException / sendReturn / hand-over as Returner happens, and answer.Return sends exactly one of sendReturn/sendException; (R3) every function receiving a capnp.Recv consumes its Returner exactly once on every path; (R4) a question id is released only after finishSent is established or on the failure branch of the message that introduced the question; (R5) an answer id is inserted only after the table was tested for that id; (R6) the handlers keep the lock discipline (a leaked sender lock stops all later Returns). Does NOT decide ordering across promise resolution, correctness of results or embargo semantics.",
-		Run: runC06,
+		Run:         runC06,
 	})
 }
 
@@ -263,16 +264,84 @@ func ruleQuestionIDReuse(ctx *Ctx, rule string) {
 		return
 	}
 	fsVal, _ := constValueInt(fsC)
-	n := 0
-	for _, f := range q.FuncsIn("rpc") {
-		hasNewQuestion := false
+	hasNewQuestion := func(f *ssa.Function) bool {
 		for _, b := range f.Blocks {
 			for _, in := range b.Instrs {
 				if ssaq.StaticCalleeName(in) == "rpc.(*Conn).newQuestion" {
-					hasNewQuestion = true
+					return true
 				}
 			}
 		}
+		return false
+	}
+	// justify: why the id may be released at instruction in of f ("" = no reason found)
+	var justify func(f *ssa.Function, in ssa.Instruction, depth int) string
+	justify = func(f *ssa.Function, in ssa.Instruction, depth int) string {
+		atoms := ssaq.Atoms(ssaq.Guards(in.Block()))
+		// (a) dominated by flags&finishSent != 0
+		for _, at := range atoms {
+			if at.Op == token.NEQ {
+				if bo, ok := at.X.(*ssa.BinOp); ok && bo.Op == token.AND {
+					if fld, _ := ssaq.LoadedField(bo.X); fld == flagsF {
+						if kk, ok := ssaq.ConstInt(bo.Y); ok && kk == fsVal {
+							if z, ok := ssaq.ConstInt(at.Y); ok && z == 0 {
+								return "dominated by q.flags&finishSent != 0"
+							}
+						}
+					}
+				}
+			}
+		}
+		// (b) a dominating store flags |= finishSent
+		for _, b2 := range f.Blocks {
+			for _, in2 := range b2.Instrs {
+				st, ok := in2.(*ssa.Store)
+				if !ok {
+					continue
+				}
+				fa2, ok := st.Addr.(*ssa.FieldAddr)
+				if !ok || ssaq.FieldVar(fa2) != flagsF {
+					continue
+				}
+				if bo, ok := st.Val.(*ssa.BinOp); ok && bo.Op == token.OR {
+					if kk, ok := ssaq.ConstInt(bo.Y); ok && kk == fsVal && ssaq.DominatesInstr(st, in) {
+						return "q.flags |= finishSent dominates (Finish was sent on this path)"
+					}
+				}
+			}
+		}
+		// (c) failure branch of the message that introduced the question
+		if hasNewQuestion(f) {
+			for _, at := range atoms {
+				if at.Op == token.NEQ && ssaq.IsNilConst(at.Y) && isErrorType(at.X.Type()) {
+					return "failure branch (" + ssaq.AtomString(at) + ") of creating/sending the message that introduced this question: the peer never saw the id"
+				}
+			}
+		}
+		// (d) inside a helper that did not exist on the reference tree: every call site must be justified
+		if obj, ok := f.Object().(*types.Func); ok && core.IsNewFunc(obj) && depth < 2 {
+			edges := q.Callers(f)
+			all := len(edges) > 0
+			first := ""
+			for _, e := range edges {
+				w := ""
+				if e.Site != nil {
+					w = justify(e.Caller.Func, e.Site, depth+1)
+				}
+				if w == "" {
+					all = false
+				} else if first == "" {
+					first = w
+				}
+			}
+			if all {
+				return fmt.Sprintf("in new helper %s; each of its %d call sites: %s", ssaq.FuncName(f), len(edges), first)
+			}
+		}
+		return ""
+	}
+	n := 0
+	for _, f := range q.FuncsIn("rpc") {
 		k := 0
 		for _, b := range f.Blocks {
 			for _, in := range b.Instrs {
@@ -288,54 +357,10 @@ func ruleQuestionIDReuse(ctx *Ctx, rule string) {
 				k++
 				key := fmt.Sprintf("%s | questionID.remove #%d", ssaq.FuncName(f), k)
 				pos := q.Pos(ssaq.InstrPos(in))
-				atoms := ssaq.Atoms(ssaq.Guards(b))
-				why := ""
-				// (a) dominated by flags&finishSent != 0
-				for _, at := range atoms {
-					if at.Op == token.NEQ {
-						if bo, ok := at.X.(*ssa.BinOp); ok && bo.Op == token.AND {
-							if fld, _ := ssaq.LoadedField(bo.X); fld == flagsF {
-								if kk, ok := ssaq.ConstInt(bo.Y); ok && kk == fsVal {
-									if z, ok := ssaq.ConstInt(at.Y); ok && z == 0 {
-										why = "dominated by q.flags&finishSent != 0"
-									}
-								}
-							}
-						}
-					}
-				}
-				// (b) a dominating store flags |= finishSent
-				if why == "" {
-					for _, b2 := range f.Blocks {
-						for _, in2 := range b2.Instrs {
-							st, ok := in2.(*ssa.Store)
-							if !ok {
-								continue
-							}
-							fa2, ok := st.Addr.(*ssa.FieldAddr)
-							if !ok || ssaq.FieldVar(fa2) != flagsF {
-								continue
-							}
-							if bo, ok := st.Val.(*ssa.BinOp); ok && bo.Op == token.OR {
-								if kk, ok := ssaq.ConstInt(bo.Y); ok && kk == fsVal && ssaq.DominatesInstr(st, in) {
-									why = "q.flags |= finishSent dominates (Finish was sent on this path)"
-								}
-							}
-						}
-					}
-				}
-				// (c) failure branch of the message that introduced the question
-				if why == "" && hasNewQuestion {
-					for _, at := range atoms {
-						if at.Op == token.NEQ && ssaq.IsNilConst(at.Y) && isErrorType(at.X.Type()) {
-							why = "failure branch (" + ssaq.AtomString(at) + ") of creating/sending the message that introduced this question: the peer never saw the id"
-						}
-					}
-				}
-				if why != "" {
+				if why := justify(f, in, 0); why != "" {
 					r.Ok(rule, key, pos, why)
 				} else {
-					r.Violation(rule, key, pos, "the question id is returned to the allocator although neither finishSent is established nor the introducing message failed: the id can be reused while the peer still holds the old question ("+ssaq.AtomsString(atoms)+")")
+					r.Violation(rule, key, pos, "the question id is returned to the allocator although neither finishSent is established nor the introducing message failed: the id can be reused while the peer still holds the old question ("+ssaq.AtomsString(ssaq.Atoms(ssaq.Guards(b)))+")")
 				}
 			}
 		}
